@@ -805,7 +805,8 @@ func (app *BaseApp) DeliverTx(req abci.RequestDeliverTx) (res abci.ResponseDeliv
 	if err != nil {
 		result = err.Result()
 	} else {
-		if duplicateTransaction && cdc.IsAfterNamedFeatureActivationHeight(app.LastBlockHeight(), codec.TxCacheEnhancementKey) {
+		// (the block being executed is the one after the last committed block)
+		if duplicateTransaction && cdc.IsAfterNamedFeatureActivationHeight(app.LastBlockHeight()+1, codec.TxCacheEnhancementKey) {
 			app.logger.Debug("Duplicate Tx Found")
 			result = sdk.Result{
 				Code:      codeDuplicateTransaction,
